@@ -34,7 +34,7 @@ def gen(rng, broker, tier):
     endpoint = rng.choice(["/healthz", "/health", "/h/c", "/"])
     clients = []
     for i in range(rng.randint(1, 10)):
-        kind = rng.choice(["get", "get", "get", "other-path", "post", "truncated", "binary", "big", "split", "idle", "burst", "mangled",
+        kind = rng.choice(["get", "get", "get", "other-path", "post", "truncated", "binary", "big", "split", "idle", "burst", "mangled", "long-query",
                            "late-request"])
         clients.append({"kind": kind, "at_us": rng.choice([rng.randint(0, 2_500_000), rng.randint(0, 2_500_000), -200_000, 9_000_000]),
                         "n": rng.randint(2, 50) if kind == "burst" else 1, "parts": rng.randint(2, 5),
@@ -102,6 +102,21 @@ async def _main(sim, sc, out):
 
     rec.listeners.append(listener)
     enq: dict = {}
+    cpu = {"t": None, "worst": 0.0, "what": None}
+
+    def _pre(step, handle):
+        cpu["t"] = _time.process_time()
+
+    def _post(step, handle):
+        if cpu["t"] is not None:
+            d = _time.process_time() - cpu["t"]
+            if d > cpu["worst"]:
+                cpu["worst"], cpu["what"] = d, repr(handle)[:120]
+
+    import time as _time
+
+    sim.loop.step_hooks.append(_pre)
+    sim.loop.post_hooks.append(_post)
     t0 = sim.clock.us + 300_000  # run() starts here; clients with negative offsets come before
     run_state = {"started": None, "returned": None}
     answers = []  # per request: dict(kind, sent_us, arrived_us, status, expect...)
@@ -152,6 +167,9 @@ async def _main(sim, sc, out):
             variants = [b"GET " + ep[:-1] + b"\xff" + ep[-1:], b"GET " + ep + b"\xfe", b"G\x80ET " + ep, b"GET " + ep + b"\xe2\x82",
                         b"GET \xc3" + ep]
             return [variants[c.get("parts", 2) % len(variants)] + b" HTTP/1.1\r\nHost: x\r\n\r\n"]
+        if k == "long-query":
+            # a long run of ordinary path characters followed by a query string (another path: 404)
+            return [b"GET /" + b"a" * (22 + c.get("parts", 2)) + b"?verbose=1 HTTP/1.1\r\nHost: x\r\n\r\n"]
         if k == "post":
             return [b"POST " + ep + b" HTTP/1.1\r\nContent-Length: 0\r\n\r\n"]
         if k == "truncated":
@@ -261,7 +279,7 @@ async def _main(sim, sc, out):
                     "wrong-status", f"C20/mem/get-answered-{st}-expected-{'/'.join(sorted(want))}/"
                     f"{'connection-opened-before-failure' if tf is not None and a['at'] < tf else 'plain'}",
                     request=k, raw=a["raw"], after_failure_us=None if tf is None else arrival - tf))
-        elif k in ("other-path", "post", "mangled"):
+        elif k in ("other-path", "post", "mangled", "long-query"):
             if st != "404":
                 V.append(violation("wrong-status", f"C20/mem/{k}-answered-{st}-expected-404", raw=a["raw"]))
         elif k == "big":
@@ -277,6 +295,10 @@ async def _main(sim, sc, out):
                 V.append(violation("fragmented-request-not-answered", "C20/mem/fragmented-valid-request-not-answered", raw=a["raw"]))
         else:  # truncated / binary: no particular answer required; the server must survive
             interesting = True
+    # no request makes a single callback of the worker's event loop burn CPU for seconds (everything else would stand still)
+    if cpu["worst"] > 1.5:
+        V.append(violation("event-loop-blocked", "C20/mem/one-loop-step-burnt-more-than-1.5s-of-cpu", cpu_s=round(cpu["worst"], 2),
+                           callback=cpu["what"]))
     # garbage never produces an unhandled exception outside the connection's own fatal-error path
     for e in sim.loop.exc_log:
         if e["node"] == "w" and "data_received" not in e["message"]:
